@@ -261,9 +261,13 @@ func (d *Driver) Close() error {
 
 	// close rather than send: the read loop may be parked handing over an error (or be gone), and
 	// Close may be called more than once
+	verifYield("ncclose:start")
+
 	d.doneOnce.Do(func() {
 		close(d.done)
 	})
+
+	verifYield("ncclose:after-done")
 
 	err := d.Channel.Close()
 	if err != nil {
